@@ -32,6 +32,7 @@ type C09Val struct {
 	F     float64   `json:"f,omitempty"`
 	Elems []*C09Val `json:"elems,omitempty"`
 	Keys  []string  `json:"keys,omitempty"`
+	M     string    `json:"m,omitempty"` // marker identifier placed on this value (never referenced: invisible in the result)
 	// byte offsets in the encoded document (filled while encoding): the value's first byte and the
 	// offset just past its last byte; for map entries keyEnd is the offset just past the key
 	start, end int
@@ -299,6 +300,11 @@ func c09Encode(v *C09Val, format string) ([]byte, error) {
 	walk = func(v *C09Val) error {
 		v.start = buf.Len()
 		var err error
+		if v.M != "" {
+			if err = send(ev.Event{K: ev.Marker, Bs: []byte(v.M)}); err != nil {
+				return err
+			}
+		}
 		switch v.K {
 		case "int":
 			err = send(ev.Event{K: ev.Int, I: v.I})
@@ -620,6 +626,20 @@ func init() {
 		Gen: func(t *rapid.T, ctx *Ctx) interface{} {
 			c := &C09Case{Format: rapid.SampledFrom([]string{"cbe", "cbe", "cte"}).Draw(t, "format"), Tmpl: rapid.SampledFrom(c09Templates).Draw(t, "template")}
 			c.Doc = genC09Doc(t, c.Tmpl)
+			// markers on some values (not on the top-level one); the cut may then fall between a marker and
+			// the value it marks
+			n := 0
+			var mark func(v *C09Val, top bool)
+			mark = func(v *C09Val, top bool) {
+				if !top && rapid.IntRange(0, 7).Draw(t, "marker") == 0 {
+					n++
+					v.M = fmt.Sprintf("m%d", n)
+				}
+				for _, e := range v.Elems {
+					mark(e, false)
+				}
+			}
+			mark(c.Doc, true)
 			return c
 		},
 		Check: func(ci interface{}, ctx *Ctx) error {
